@@ -331,7 +331,8 @@ func (g *G) body(depth, n int) []*ast.Stmt {
 		lastOpts = false
 		switch k {
 		case "line":
-			out = append(out, &ast.Stmt{Kind: "line", Line: g.line(false)})
+			// (a condition on a plain line is parsed and ignored by the runner)
+			out = append(out, &ast.Stmt{Kind: "line", Line: g.line(r.Intn(8) == 0)})
 		case "opts":
 			s := &ast.Stmt{Kind: "opts"}
 			for j := 1 + r.Intn(3); j > 0; j-- {
@@ -458,11 +459,35 @@ func RunCase(r *prng.R, p *Profile, id string) *sexp.S {
 	g := &G{R: r, P: p}
 	nn := 1 + r.Intn(p.MaxNodes)
 	g.titles = []string{"Start", "A", "B", "C_1"}[:nn]
+	if p.Untracked && nn >= 3 && r.Intn(10) == 0 {
+		// two nodes of the same title: jumps find the first one
+		g.titles = append([]string{}, g.titles...)
+		g.titles[nn-1] = g.titles[r.Intn(nn-1)]
+	}
 	prog := &ast.Program{}
 	for i, t := range g.titles {
 		n := &ast.Node{Title: t}
 		if p.Untracked && i > 0 && r.Intn(3) == 0 {
 			n.Tracking = r.Pick("never", "always")
+		}
+		if p.Untracked && r.Intn(4) == 0 {
+			// headers that mean nothing to the runner, an overridden title, a tracking header that is overridden
+			for k := 1 + r.Intn(2); k > 0; k-- {
+				switch r.Intn(5) {
+				case 0:
+					n.Pre = append(n.Pre, [2]string{"title", r.Pick("Ghost", "Start", "A")})
+				case 1:
+					n.Pre = append(n.Pre, [2]string{"tags", r.Pick("a b", "", "#x")})
+				case 2:
+					n.Post = append(n.Post, [2]string{"position", "12,-3"})
+				case 3:
+					n.Post = append(n.Post, [2]string{r.Pick("colorID", "note", "Title", "tracking2"), r.Pick("0", "never", "é: x")})
+				default:
+					if n.Tracking != "" {
+						n.Pre = append(n.Pre, [2]string{"tracking", r.Pick("never", "always", "sometimes")})
+					}
+				}
+			}
 		}
 		n.Body = append(n.Body, &ast.Stmt{Kind: "line", Line: &ast.Line{Els: []ast.El{{Text: "enter " + t}}}})
 		if p.LongRuns {
